@@ -127,6 +127,36 @@ def run(ctx):
                "the file names another sampler than the one whose checkpoint it holds", disc="type")
     from ..report import reuse
     from . import c19
+    # ---- fit(): the flow stored in the file is replaced only when the caller asks (overwrite), and a replacement must not
+    # leave a checkpoint behind whose particles were weighted under the replaced flow
+    from .common import flat_conds
+    fit = A.methods["fit"]
+    evf = Evaluator(repo, max_depth=0)
+    evf.run(fit, A)
+    repl = []
+    for e in evf.events:
+        if e.func is fit and e.callee.endswith("Aspire.save_flow"):
+            fc = flat_conds(e.conds)
+            if any(c[0] == "in" and c[1] == T.K("flow") and pol for c, pol in fc):
+                repl.append((e, fc))
+    ctx.floor("flow replacements in fit()", len(repl), 1)
+    for i, (e, fc) in enumerate(repl):
+        rest = {(c, pol) for c, pol in fc if not (c[0] == "in" and c[1] == T.K("flow")) and not any(x == T.atom("checkpoint_path") for x in T.subterms(c))}
+        ctx.decide(rest == {(T.atom("overwrite"), True)}, "C14.fit", fit.ident, loc_of(fit, e.node), "fit replaces a flow already in the file only when the caller passes overwrite",
+                   "fit replaces the flow stored in the file when " + " and ".join(("" if pol else "not ") + T.show(c)[:60] for c, pol in sorted(rest, key=repr))
+                   + ", not only on the caller's overwrite: a refit inside an auto-checkpoint context swaps /flow under a checkpoint weighted with the previous flow", disc=f"implicit|{i}")
+        # the same branch must also drop / refresh the stored checkpoint
+        branch = None
+        for n_ in ast.walk(fit.node):
+            if isinstance(n_, ast.If) and any(x is e.node for b in n_.body for x in ast.walk(b)):
+                branch = n_  # innermost enclosing if (ast.walk is outer-first, so the last hit is the innermost)
+        touches = branch is not None and any(isinstance(x, ast.Constant) and x.value == "checkpoint" for b in branch.body for x in ast.walk(b))
+        ctx.decide(touches, "C14.fit", fit.ident, loc_of(fit, e.node), "when fit replaces the stored flow it also removes or refreshes the stored checkpoint",
+                   "fit(..., overwrite=True) replaces /flow but leaves /checkpoint in place: its particles were weighted under the replaced flow, and resume_from_file "
+                   "then continues that population with the new flow as proposal", disc=f"overwrite|{i}")
+    from . import c12
+    reuse(ctx, c12.run, ("C12.cad",), "C14cad", "cadence rule shared with C12: sample_posterior rewrites /flow and the configuration before sampling, so every run that has a "
+          "checkpoint callback must end by writing its own checkpoint -- otherwise the file pairs the new flow with the checkpoint of an earlier run")
     from . import c11
     reuse(ctx, c11.run, ("C11.prime",), "C14res", "resume-route rule shared with C11: the population a resumed instance continues from is the checkpoint read in the same pass as the flow it loaded, "
           "and it is forwarded exactly when the caller gave none")
@@ -161,6 +191,7 @@ def run(ctx):
 
 _A = "src/aspire/aspire.py"
 MUTANTS = [
+    M("refit inside a context replaces the stored flow", _A, "checkpoint_save_config = defaults[\"save_config\"]\n        saved_config = (", "checkpoint_save_config = defaults[\"save_config\"]\n            overwrite = overwrite or defaults[\"save_flow\"]\n        saved_config = (", "C14.fit", within="Aspire.fit"),
     M("requested name recorded instead of the sampler built", _A, "self._last_sampler_type = sampler\n", "self._last_sampler_type = requested\n", "C14.config",
       more=[("if (\n            sampler == \"importance\"\n            and hasattr(self, \"_resume_sampler_type\")", "requested = sampler\n        if (\n            sampler == \"importance\"\n            and hasattr(self, \"_resume_sampler_type\")")]),
     M("sampler type only reported before any run", _A, "if hasattr(self, \"_last_sampler_type\"):\n            config[\"sampler_type\"] = self._last_sampler_type", "if not hasattr(self, \"_last_sampler_type\"):\n            config[\"sampler_type\"] = self._last_sampler_type", "C14.config"),
